@@ -419,18 +419,14 @@ func (c *ServerChannel) FinishSession(ctx context.Context) error {
 		State: SessionStateFinished,
 	}
 
-	// No other envelope should be sent after the finished session
-	c.sendMu.Lock()
-	err := c.sendSession(ctx, &ses)
-	c.setStateWLock(SessionStateFinished)
-	c.sendMu.Unlock()
+	err := c.sendTerminalSession(ctx, &ses)
 
 	c.setState(SessionStateFinished)
 
-	if err == nil {
-		if err = c.transport.Close(); err != nil {
-			err = fmt.Errorf("closing the transport failed: %w", err)
-		}
+	// The transport is closed even if the session envelope could not
+	// be sent, otherwise the connection would never be released.
+	if closeErr := c.transport.Close(); err == nil && closeErr != nil {
+		err = fmt.Errorf("closing the transport failed: %w", closeErr)
 	}
 
 	return err
@@ -450,21 +446,34 @@ func (c *ServerChannel) FailSession(ctx context.Context, reason *Reason) error {
 		Reason: reason,
 	}
 
-	// No other envelope should be sent after the failed session
-	c.sendMu.Lock()
-	err := c.sendSession(ctx, &ses)
-	c.setStateWLock(SessionStateFailed)
-	c.sendMu.Unlock()
+	err := c.sendTerminalSession(ctx, &ses)
 
 	c.setState(SessionStateFailed)
 
-	if err == nil {
-		if err = c.transport.Close(); err != nil {
-			err = fmt.Errorf("closing the transport failed: %w", err)
-		}
+	// The transport is closed even if the session envelope could not
+	// be sent, otherwise the connection would never be released.
+	if closeErr := c.transport.Close(); err == nil && closeErr != nil {
+		err = fmt.Errorf("closing the transport failed: %w", closeErr)
 	}
 
 	return err
+}
+
+// sendTerminalSession sends the finished or failed session envelope, making
+// sure that no other envelope is written after it.
+func (c *ServerChannel) sendTerminalSession(ctx context.Context, ses *Session) error {
+	// The state is changed first, so the concurrent senders that are waiting for the
+	// send mutex are refused instead of delaying the terminal session. Only the
+	// envelope that is being sent at this moment (if any) goes before it.
+	c.setStateWLock(ses.State)
+
+	c.sendMu.Lock()
+	defer c.sendMu.Unlock()
+
+	if err := c.transport.Send(ctx, ses); err != nil {
+		return fmt.Errorf("send session: transport error: %w", err)
+	}
+	return nil
 }
 
 // Source: https://github.com/juliangruber/go-intersect
